@@ -262,6 +262,13 @@ def run(scn, H, execu):
                         m2 = max(sc, abs(xa), abs(xb)) ** 2
                         if abs(xa * xa - xb * xb) <= 1e-8 * m2:
                             continue
+                        # ... and an interpolated value mixes a neighbouring
+                        # sample linearly: if that sample is the square root
+                        # of a rounding residual of the force (relative
+                        # 1e-15 of its scale -> 3e-8 of the stress scale),
+                        # the snapshot inherits it undiminished
+                        if abs(xa - xb) <= 3e-7 * max(sc, abs(xa), abs(xb)):
+                            continue
                     if (xa is None) != (xb is None) or (
                             xa is not None and
                             abs(xa - xb) > 1e-8 * max(sc, abs(xa), abs(xb)) + 1e-300):
